@@ -160,6 +160,9 @@ func (fr *frame) enterLoop(b *ssa.BasicBlock, li *loopInfo, ins []edgeIn) *State
 	lh := vc.freshConst("hw", SInt)
 	vc.fact(fmt.Sprintf("(>= %s %s)", lh.S, st.hw))
 	st.hw = lh.S
+	if li.mods.all || li.mods.heapAll {
+		vc.warn("%s: loop %d modifies everything (%s)", shortFn(fr.fn), li.ordinal, li.mods.why)
+	}
 	fr.applyMods(st, li.mods, fmt.Sprintf("loop %d of %s", li.ordinal, fr.fn))
 	li.hdrVals = map[ssa.Value]Term{}
 	for _, instr := range b.Instrs {
@@ -324,6 +327,11 @@ func (fr *frame) backEdge(from, to *ssa.BasicBlock, li *loopInfo, cond string, s
 			fr.oblige("inv-step", "", fmt.Sprintf("loop%d#%d/latch%d", li.ordinal, i, latchOrd(li, from)), est, g, cl.Text, cl.Tags)
 		case "iter":
 			ctx := fr.specCtx(est, fr.oldState(), li.hdrSt, from, len(from.Instrs))
+			ctx.iterHdr = to
+			ctx.phiNext = map[ssa.Value]Term{}
+			for p, t := range next {
+				ctx.phiNext[p] = t
+			}
 			g, err := ctx.goal(cl.Expr)
 			if err != nil {
 				vc.warn("%s: loop %d iter %q: %v", fr.fn, li.ordinal, cl.Text, err)
